@@ -12,7 +12,7 @@ import (
 func init() {
 	register(&propDef{
 		id: "C02", level: "other", perCfg: false,
-		explain: "Necessary structural conditions of C02, decided for all paths. F1 frame construction at every protocol write of package varlink (service reply path and client Send, found by role and analysed in the inlined view of the innermost function that both encodes and writes): the written slice is append(B, 0) with exactly one appended constant 0 where B is, on every alternative, result #0 of json.Marshal (possibly through a repo helper all of whose returns are); the write is dominated by `marshal error == nil`, is not in a loop and is the only protocol write on any path of its function. F2 frame reading at every delimiter read (service loop, client receive): ReadBytes(ctx, 0) with the same constant as the appended sentinel (F4); the bytes decoded are result[:len(result)-1] of that very read under `read error == nil`; a failed read is never retried on the same connection (a partial frame has been consumed); inside ctxio the delimiter is passed through unchanged to bufio.Reader.ReadBytes and its result is returned unchanged through the result channel (or, when the helper signals completion by closing its channel, through variables or members of the operation written before the close and read on the result branch). F3 one persistent buffered reader per connection: bufio readers are created only in the wrapper's constructor, the wrapper's fields are written only there, wrappers are created outside loops, and Connection.conn is stored only where a Connection is created. F7 (= C18.U3) the buffered reader reads the connection itself for the connection's whole life; F8 (= C12.X2) the standard error replies are rendered by encoding/json from typed values, so they are valid JSON for every name.",
+		explain: "Necessary structural conditions of C02, decided for all paths. F1 frame construction at every protocol write of package varlink (service reply path and client Send, found by role and analysed in the inlined view of the innermost function that both encodes and writes): the written slice is append(B, 0) with exactly one appended constant 0 where B is, on every alternative, result #0 of json.Marshal (possibly through a repo helper all of whose returns are); the write is dominated by `marshal error == nil`, is not in a loop and is the only protocol write on any path of its function. F2 frame reading at every delimiter read (service loop, client receive): ReadBytes(ctx, 0) with the same constant as the appended sentinel (F4); the bytes decoded are result[:len(result)-1] of that very read under `read error == nil`; a failed read is never retried on the same connection (a partial frame has been consumed); inside ctxio the delimiter is passed through unchanged to bufio.Reader.ReadBytes and its result is returned unchanged through the result channel (or, when the helper signals completion by closing its channel, through variables or members of the operation written before the close and read on the result branch). F3 one persistent buffered reader per connection: bufio readers are created only in the wrapper's constructor, the wrapper's fields are written only there, wrappers are created outside loops, and Connection.conn is stored only where a Connection is created. F7 (= C18.U3) the buffered reader reads the connection itself for the connection's whole life; F8 (= C12.X2) the standard error replies are rendered by encoding/json from typed values, so they are valid JSON for every name. F6 (= C18.U1/U1b/U1c) the buffered reader hands over exactly the bytes it delivered; F7/F8 re-evaluate C18.U3 and C12.X2.",
 		notDec:  "The library contracts themselves: json.Marshal returns one valid JSON value without raw control characters (hence no NUL) and validates json.RawMessage / Marshaler output; bufio.Reader.ReadBytes is independent of segmentation and unbounded in frame size; the OS delivers bytes in order.",
 		trusted: []string{"encoding/json.Marshal: output is one syntactically valid JSON value, bytes < 0x20 are escaped, RawMessage and Marshaler output is validated", "bufio.Reader.ReadBytes: returns exactly the bytes up to and including the first delimiter regardless of how they arrived"},
 		run:     runC02,
